@@ -529,9 +529,10 @@ def make_loop(env, form, inner, level, brk=None):
             b = R.Bin('+', R.Var(v), b)
         return pre + [R.Repeat('count_with', body_with([R.Print(R.Var(v), ln=True)]), var=v,
                                n=env.num(small), a=a, b=b)]
+    cyc_kind = 'cycraw' if getattr(env, 'raw_units', False) else 'cyc'
     if form in ('count_cycle', 'count_cycle0'):
         return pre + [R.Repeat('count_cycle', body_with([R.Print(R.Var(v), ln=True)]), var=v,
-                               n=env.num(small), start=env.num('val') if form == 'count_cycle' else None)]
+                               n=env.num(small), start=env.num(cyc_kind) if form == 'count_cycle' else None)]
     if form == 'while':
         wv = 'w' + sfx
         pre.append(R.Assign(wv, env.num(small)))
@@ -551,7 +552,7 @@ def make_loop(env, form, inner, level, brk=None):
     if form in ('all_from', 'in_group_from', 'groups_from'):
         dist = ('from', v, env.num('val'), env.num('val'))
     if form in ('all_cycle', 'in_list_cycle'):
-        dist = ('cycle', v, env.num('val') if ch.flag() else None)
+        dist = ('cycle', v, env.num(cyc_kind) if ch.flag() else None)
     if dist is not None:
         shows.append(R.Print(R.Var(v), ln=True))
     if form in ('all', 'all_from', 'all_cycle'):
@@ -586,6 +587,7 @@ def loop_program(forms=None, nest=True, in_routine=False):
         stmts = []
         if ch.flag(0.25) or f0 in ('count_cycle', 'count_cycle0', 'all_cycle', 'in_list_cycle') and ch.flag(0.5):
             stmts.append(R.Units('raw'))
+            env.raw_units = True
         inner = []
         brk0 = ch.pick([None, 'first', 'last'], [3, 1, 1])
         if nest and ch.flag(0.6):
